@@ -34,10 +34,28 @@ def gen_spec(rng):
         lim = rng.choice([None, None, None, round(rng.uniform(0.5, 3), 1)])
         # optional continuous slack in [0, 1] with a cost (a non-binary variable with binary-looking bounds)
         slack = rng.choice([None, None, None, 0.3, 1.5])
-        spec["errs"].append({"idx": idx, "coef": coef, "t": t, "w": w, "lim": lim, "slack": slack})
+        # one-sided error terms (lower or upper bound exactly 0) and slack variables with other bounds / integer type
+        side = rng.choice([None, None, None, None, "pos", "neg"])
+        slack_ub = rng.choice([1, 1, 1, 0, 2])
+        slack_int = slack_ub != 1 and rng.random() < 0.5
+        spec["errs"].append({"idx": idx, "coef": coef, "t": t, "w": w, "lim": lim, "slack": slack, "side": side,
+                             "slack_ub": slack_ub, "slack_int": slack_int})
     spec["cost"] = [rng.choice([0, 0, 0.1, 0.5, 1.0, 21.0]) for _ in range(nx)]
     spec["names"] = rng.choice(["plain", "aldy"])
+    # staged construction: part of the model is built and solved (a peek at its optimum, the variable list is
+    # read), then the rest is added to the same instance before the enumeration
+    spec["staged"] = rng.randint(1, n - 1) if rng.random() < 0.25 else None
     return spec
+
+
+def err_bounds(e, inf):
+    lim = e["lim"]
+    lo, hi = (-inf, inf) if lim is None else (-lim, lim)
+    if e.get("side") == "pos":
+        lo = 0
+    elif e.get("side") == "neg":
+        hi = 0
+    return lo, hi
 
 
 def build(spec, solver="any"):
@@ -50,8 +68,21 @@ def build(spec, solver="any"):
         bn = [f"A_{i % 3 + 1}.00{i}#x_{i // 3}" for i in range(n)]
     else:
         bn = [f"B{i}" for i in range(n)]
-    b = [m.addVar(vtype="B", name=bn[i]) for i in range(n)]
+    k0 = spec.get("staged")
+    if k0:
+        b = [m.addVar(vtype="B", name=bn[i]) for i in range(k0)]
+        for i, j in spec["order"]:
+            if i < k0 and j < k0:
+                m.addConstr(b[j] <= b[i], name=f"CORD_{i}_{j}")
+        m.setObjective(m.quicksum((1 + i) * v for i, v in enumerate(b)))
+        m.solve()
+        [m.varName(v) for v in m.variables() if m.is_binary(v)]
+        b += [m.addVar(vtype="B", name=bn[i]) for i in range(k0, n)]
+    else:
+        b = [m.addVar(vtype="B", name=bn[i]) for i in range(n)]
     for i, j in spec["order"]:
+        if k0 and i < k0 and j < k0:
+            continue
         m.addConstr(b[j] <= b[i], name=f"CORD_{i}_{j}")
     for sub, kind, k in spec["card"]:
         e = m.quicksum(b[i] for i in sub)
@@ -68,12 +99,14 @@ def build(spec, solver="any"):
     errs = []
     slack_cost = []
     for ei, e in enumerate(spec["errs"]):
-        lim = e["lim"]
-        v = m.addVar(lb=-m.INF if lim is None else -lim, ub=m.INF if lim is None else lim,
-                     name=f"E_{ei}_T>A")
+        lo, hi = err_bounds(e, m.INF)
+        v = m.addVar(lb=lo, ub=hi, name=f"E_{ei}_T>A")
         expr = m.quicksum(c * x[i] for i, c in zip(e["idx"], e["coef"]))
         if e.get("slack") is not None:
-            sv = m.addVar(lb=0, ub=1, name=f"S_{ei}")
+            if e.get("slack_int"):
+                sv = m.addVar(vtype="I", lb=0, ub=e.get("slack_ub", 1), name=f"S_{ei}")
+            else:
+                sv = m.addVar(lb=0, ub=e.get("slack_ub", 1), name=f"S_{ei}")
             expr = expr + sv
             slack_cost.append(e["slack"] * sv)
         m.addConstr(expr + v <= e["t"], name=f"CFUNC_{ei}")
@@ -109,15 +142,23 @@ def semantic_table(spec, names_b, names_p):
         obj = 0.0
         for e in spec["errs"]:
             base = e["t"] - sum(c * x[i] for i, c in zip(e["idx"], e["coef"]))
-            cands = [0.0]
-            if e.get("slack") is not None:
-                cands = [0.0, 1.0, min(1.0, max(0.0, base))]
-                if e["lim"] is not None:
-                    cands += [min(1.0, max(0.0, base - e["lim"])), min(1.0, max(0.0, base + e["lim"]))]
+            lo, hi = err_bounds(e, float("inf"))
+            if e.get("slack") is None:
+                cands = [0.0]
+            else:
+                ub = e.get("slack_ub", 1)
+                # feasible slack values: err = base - s in [lo, hi]  and  0 <= s <= ub
+                a, z = max(0.0, base - hi), min(float(ub), base - lo)
+                if e.get("slack_int"):
+                    cands = [float(k) for k in range(ub + 1)]
+                elif a > z + 1e-12:
+                    cands = []
+                else:
+                    cands = [a, z, min(z, max(a, base))]  # convex piecewise-linear: end points or the kink
             best = None
             for sv in cands:
                 err = base - sv
-                if e["lim"] is not None and abs(err) > e["lim"] + 1e-9:
+                if err < lo - 1e-9 or err > hi + 1e-9:
                     continue
                 val = e["w"] * abs(err) + (e["slack"] or 0) * sv
                 best = val if best is None else min(best, val)
